@@ -168,6 +168,13 @@ func IteU64(c bool, a, b uint64) uint64 {
 	return b
 }
 
+func IteU8(c bool, a, b uint8) uint8 {
+	if c {
+		return a
+	}
+	return b
+}
+
 func IteInt(c bool, a, b int) int {
 	if c {
 		return a
